@@ -92,6 +92,29 @@ pub(crate) fn builtin(name: &str) -> Result<OpConstructor, Error> {
     Err(Error::NotFound(name.to_string(), String::default()))
 }
 
+/// Names of all built-in operators (read-only hook for verification harnesses)
+#[cfg(feature = "verif_hooks")]
+pub(crate) fn verif_builtin_names() -> Vec<&'static str> {
+    BUILTIN_OPERATORS.iter().map(|p| p.0).collect()
+}
+
+/// The unit tables as (name, published factor text, multiplier) (read-only hook)
+#[cfg(feature = "verif_hooks")]
+pub(crate) fn verif_units() -> (
+    Vec<(&'static str, &'static str, f64)>,
+    Vec<(&'static str, &'static str, f64)>,
+) {
+    let lin = units::LINEAR_UNITS
+        .iter()
+        .map(|u| (u.name(), u._factor(), u.multiplier()))
+        .collect();
+    let ang = units::ANGULAR_UNITS
+        .iter()
+        .map(|u| (u.name(), u._factor(), u.multiplier()))
+        .collect();
+    (lin, ang)
+}
+
 // ----- S T R U C T   O P C O N S T R U C T O R ---------------------------------------
 
 /// Blueprint for the overall instantiation of an operator.
